@@ -6,7 +6,7 @@ use std::collections::BTreeSet;
 
 /// `all` = facts of the whole history (needed to tell whether a context dot belongs to another key);
 /// `t7_fired` = the schedule-level R7 trigger (see `r7_state`) held at some replica at some step
-pub fn taints(facts: &[(usize, Fact)], _all: &[(usize, Fact)], has_merge: bool, t7_fired: bool) -> BTreeSet<&'static str> {
+pub fn taints(facts: &[(usize, Fact)], all: &[(usize, Fact)], t1_fired: bool, t2_fired: bool, t7_fired: bool) -> BTreeSet<&'static str> {
     let mut t = BTreeSet::new();
     for (_, f) in facts {
         match f {
@@ -16,37 +16,41 @@ pub fn taints(facts: &[(usize, Fact)], _all: &[(usize, Fact)], has_merge: bool, 
             _ => {}
         }
     }
-    // T1: a register write nested in a map whose context names an actor other than its author. The value is
-    // identified by that whole clock (R1); dots of *other actors* in it - writes on other keys, or writes on the
-    // same key that it superseded - are what a key removal or a value comparison later trips over. (A sharper
-    // variant "covers a dot of another key path" was tried and rejected: R1 also manifests inside one key.)
+    // T1 (R1): a register write w nested in a map is identified by its whole context clock c. A dot (a, c[a]) of
+    // ANOTHER actor in c makes R1 bite in exactly three ways (a sharper "dot of another key" variant was tried first and
+    // failed calibration; this one names the mechanisms one by one):
+    //  (i)   the update with dot (a, c[a]) is not under w's key path: no entry clock of that path ever holds it, so a
+    //        key removal that saw w cannot cover it and w survives / merge resets w's clock differently per replica;
+    //  (ii)  it is under the path, but some key removal covers it without covering w's own dot: later removal
+    //        contexts (entry clocks) no longer hold it while w's clock still does;
+    //  (m2)  some replica applied w without having applied that update (non-causal delivery): domination tests
+    //        between value clocks fail there. (m2) is schedule-level: `t1_fired`.
     for (_, f) in facts {
         if let Fact::Up { dot, leaf: Leaf::Put(c, _), path } = f {
-            if !path.is_empty() && c.keys().any(|a| *a != dot.0) {
-                t.insert("T1");
+            if path.is_empty() {
+                continue;
+            }
+            for (a, n) in c {
+                if *a == dot.0 || *n == 0 {
+                    continue;
+                }
+                let under = all.iter().any(|(_, g)| matches!(g, Fact::Up { dot: d2, path: p2, .. } if *d2 == (*a, *n) && is_prefix(path, p2)));
+                if !under {
+                    t.insert("T1");
+                }
+                let split = facts.iter().any(|(_, g)| matches!(g, Fact::Rm { ctx, path: rp, .. } if is_prefix(rp, path) && cov(ctx, (*a, *n)) && !cov(ctx, *dot)));
+                if split {
+                    t.insert("T1");
+                }
             }
         }
     }
+    if t1_fired {
+        t.insert("T1");
+    }
     for (rid, r) in facts {
         if let Fact::Rm { ctx, path: rp, .. } = r {
-            // T2: the same actor has two updates under the removed key path, the removal covers the
-            // earlier but not the later one, and the execution contains a merge
-            if has_merge {
-                for (_, u) in facts {
-                    if let Fact::Up { dot: d1, path: p1, .. } = u {
-                        if !is_prefix(rp, p1) || !cov(ctx, *d1) {
-                            continue;
-                        }
-                        for (_, u2) in facts {
-                            if let Fact::Up { dot: d2, path: p2, .. } = u2 {
-                                if is_prefix(rp, p2) && d2.0 == d1.0 && d2.1 > d1.1 && !cov(ctx, *d2) {
-                                    t.insert("T2");
-                                }
-                            }
-                        }
-                    }
-                }
-            }
+            let _ = ctx;
             // nested removes under the removed key path
             for (nid, n) in facts {
                 let (nctx, npath) = match n {
@@ -68,7 +72,41 @@ pub fn taints(facts: &[(usize, Fact)], _all: &[(usize, Fact)], has_merge: bool, 
     if t7_fired {
         t.insert("T7");
     }
+    if t2_fired {
+        t.insert("T2");
+    }
     t
+}
+
+/// Schedule-level trigger of R2, over knowledge sets only: a merge of states with knowledge X and Y where some key
+/// removal rho is known to one side only, the other side still holds an update u1 that rho covers, and the same actor
+/// has a later update u2 under the same key path that rho does not cover and that one of the sides knows. Map::merge
+/// computes the "deleted dots" by per-actor clock subtraction, which cannot express "u1 dead, u2 alive".
+pub fn r2_merge(all: &[(usize, Fact)], kx: Bits, ky: Bits) -> bool {
+    let has = |k: Bits, id: usize| k >> id & 1 == 1;
+    for (rid, r) in all {
+        let Fact::Rm { ctx, path: rp, .. } = r else { continue };
+        let (rx, ry) = (has(kx, *rid), has(ky, *rid));
+        if rx == ry {
+            continue;
+        }
+        // `lack` = the side that has not applied rho
+        let lack = if rx { ky } else { kx };
+        for (i1, u) in all {
+            let Fact::Up { dot: d1, path: p1, .. } = u else { continue };
+            if !is_prefix(rp, p1) || !cov(ctx, *d1) || !has(lack, *i1) {
+                continue;
+            }
+            for (i2, u2) in all {
+                if let Fact::Up { dot: d2, path: p2, .. } = u2 {
+                    if is_prefix(rp, p2) && d2.0 == d1.0 && d2.1 > d1.1 && !cov(ctx, *d2) && (has(kx, *i2) || has(ky, *i2)) {
+                        return true;
+                    }
+                }
+            }
+        }
+    }
+    false
 }
 
 /// Schedule-level trigger of R7, over knowledge sets only (never implementation state): at knowledge set K some
@@ -143,4 +181,27 @@ pub fn is_active(id: &str) -> bool {
         Some(s) => s.contains(id),
         None => false,
     }
+}
+
+
+/// Schedule-level part (m2) of R1's trigger: at knowledge set K some nested register write is known whose context
+/// names a dot of another actor that K has not applied.
+pub fn r1_state(k_facts: &[(usize, Fact)], all: &[(usize, Fact)], in_k: &dyn Fn(usize) -> bool) -> bool {
+    for (_, f) in k_facts {
+        if let Fact::Up { dot, leaf: Leaf::Put(c, _), path } = f {
+            if path.is_empty() {
+                continue;
+            }
+            for (a, n) in c {
+                if *a == dot.0 || *n == 0 {
+                    continue;
+                }
+                let missing = all.iter().any(|(id, g)| matches!(g, Fact::Up { dot: d2, .. } if *d2 == (*a, *n)) && !in_k(*id));
+                if missing {
+                    return true;
+                }
+            }
+        }
+    }
+    false
 }
